@@ -453,6 +453,8 @@ func (p *pgParser) primary() PgExpr {
 				if len(args) == 1 {
 					return PgExpr{"e": "arrlen", "a": args[0]}
 				}
+			case "coalesce":
+				return PgExpr{"e": "coalesce", "args": args}
 			}
 			return PgExpr{"e": "call", "fn": t.V, "args": args}
 		}
